@@ -131,14 +131,76 @@ Qed.
 Lemma to_fat_wf src t : span_in (length src) (tspan t) -> to_fat src t = Ok (tkd t, slice src (sstart (tspan t)) (send (tspan t))).
 Proof. intros H. unfold to_fat. rewrite (get_content_in_bounds _ _ H). reflexivity. Qed.
 
+(* ------------------------------------------------------------------------------------------ *)
+(* the context, window by window: the code's token list IS the property's neighbourhood, flattened *)
+(* ------------------------------------------------------------------------------------------ *)
+(* Span::new(start.saturating_sub(2), start) never panics *)
+Lemma prequel_window_ok sp : prequel_window sp = Ok (before_window sp).
+Proof.
+  unfold prequel_window, span_new, before_window.
+  destruct (Nat.ltb_spec (sstart sp) (sstart sp - 2)) as [H|H]; [lia | reflexivity].
+Qed.
+Lemma sequel_window_after sp : sequel_window sp = after_window sp.
+Proof. reflexivity. Qed.
+
+Lemma context_indices_nb l d : context_indices l d = Ok (nb_indices l d).
+Proof. unfold context_indices. rewrite prequel_window_ok. reflexivity. Qed.
+
+Lemma get_tokens_app ts a b : get_tokens ts (a ++ b) = get_tokens ts a ++ get_tokens ts b.
+Proof.
+  induction a as [|i r IH]; cbn [app get_tokens]; [reflexivity|].
+  destruct (nth_error ts i); rewrite IH; reflexivity.
+Qed.
+
+Lemma map_res_app {A B} (f : A -> res B) a b :
+  map_res f (a ++ b) = (do x <- map_res f a; do y <- map_res f b; Ok (x ++ y)).
+Proof.
+  induction a as [|h t IH]; cbn [app map_res bind].
+  - destruct (map_res f b); reflexivity.
+  - destruct (f h); cbn [bind]; [|reflexivity]. rewrite IH.
+    destruct (map_res f t); cbn [bind]; [|reflexivity]. destruct (map_res f b); reflexivity.
+Qed.
+
+(* blanking token by token inside the iterator = blanking the collected list *)
+Lemma map_res_blanked src ts :
+  map_res (fat_blanked src) ts = (do x <- map_res (to_fat src) ts; Ok (map blank_ftok x)).
+Proof.
+  induction ts as [|t r IH]; cbn [map_res bind map]; [reflexivity|].
+  unfold fat_blanked at 1. destruct (to_fat src t) as [f|w]; cbn [bind]; [|reflexivity].
+  rewrite IH. destruct (map_res (to_fat src) r); reflexivity.
+Qed.
+
+(* THE tie between the code and the property's words: the tokens from_lint hashes are the tokens
+   within two characters before the flagged text, the flagged tokens and the tokens within two
+   characters after it, position-free and dictionary-free, concatenated *)
+Lemma context_tokens_nb l d : context_tokens l d = nb_tokens l d.
+Proof.
+  unfold context_tokens, nb_tokens, nb_parts, window_tokens.
+  rewrite context_indices_nb. cbn [bind]. unfold nb_indices.
+  rewrite map_res_blanked, !get_tokens_app, !map_res_app.
+  repeat match goal with |- context [map_res ?f ?x] => destruct (map_res f x); cbn [bind]; try reflexivity end.
+  rewrite !map_app. reflexivity.
+Qed.
+
+Lemma window_tokens_total d sp : doc_wf d -> exists w, window_tokens d sp = Ok w.
+Proof.
+  intros Hwf. unfold window_tokens. apply map_res_ok. intros t Ht. apply get_tokens_In in Ht.
+  unfold doc_wf in Hwf. rewrite Forall_forall in Hwf. rewrite (to_fat_wf _ _ (Hwf t Ht)). eauto.
+Qed.
+
+Lemma nb_parts_total l d : doc_wf d -> exists w, nb_parts l d = Ok w.
+Proof.
+  intros Hwf. unfold nb_parts.
+  destruct (window_tokens_total d (before_window (il_span l)) Hwf) as [b ->].
+  destruct (window_tokens_total d (il_span l) Hwf) as [p ->].
+  destruct (window_tokens_total d (after_window (il_span l)) Hwf) as [a ->]. cbn [bind]. eauto.
+Qed.
+
 (* never panics on a well-formed document, whatever the lint's span (even outside the text) *)
 Lemma context_total l d : doc_wf d -> exists c, context l d = Ok c.
 Proof.
-  intros Hwf. unfold context, context_tokens.
-  destruct (map_res_ok (to_fat (dsrc d)) (get_tokens (dtoks d) (context_indices l d))) as [ys E].
-  - intros t Ht. apply get_tokens_In in Ht. unfold doc_wf in Hwf. rewrite Forall_forall in Hwf.
-    rewrite (to_fat_wf _ _ (Hwf t Ht)). eauto.
-  - rewrite E. cbn [bind]. eauto.
+  intros Hwf. unfold context. rewrite context_tokens_nb. unfold nb_tokens.
+  destruct (nb_parts_total l d Hwf) as [[[b p] a] ->]. cbn [bind]. eauto.
 Qed.
 
 (* ------------------------------------------------------------------------------------------ *)
@@ -301,116 +363,45 @@ Section Hashed.
   Qed.
 End Hashed.
 
-(* what makes two contexts differ: each of the fields the property lists, and priority as well *)
-Lemma context_differs l d c l' d' c' :
-  context l d = Ok c -> context l' d' = Ok c' ->
-  il_msg l <> il_msg l' \/ il_kind l <> il_kind l' \/ il_sugg l <> il_sugg l' \/ il_prio l <> il_prio l'
-  \/ context_tokens l d <> context_tokens l' d' ->
-  c <> c'.
-Proof.
-  intros E E' H Eq. subst c'.
-  destruct (context_fields _ _ _ E) as [K [S [M [P T]]]].
-  destruct (context_fields _ _ _ E') as [K' [S' [M' [P' T']]]].
-  destruct H as [H|[H|[H|[H|H]]]]; apply H; congruence.
-Qed.
-
 (* ------------------------------------------------------------------------------------------ *)
-(* stability                                                                                    *)
+(* which lints share a context                                                                  *)
 (* ------------------------------------------------------------------------------------------ *)
 Definition same_report (l l' : ilint) : Prop :=
   il_kind l = il_kind l' /\ il_sugg l = il_sugg l' /\ il_msg l = il_msg l' /\ il_prio l = il_prio l'.
 
-Section Stable.
-  Variable hash : ctx -> N.
-
-  (* C14_stable_partial: what IS true of the code — an edit that leaves the fat tokens of the three
-     windows [s-2,s) (s >= 2), [s,e), [s+2,s+4) equal (twin_loc included) leaves the lint ignored.
-     Missing for the full statement: the windows are not the two-character neighbourhood (F13) and
-     fat tokens are not position free (F12). *)
-  Theorem stable_partial : forall s l d l' d' w s1 hist s2,
-    same_report l l' ->
-    context_tokens l d = Ok w -> context_tokens l' d' = Ok w ->
-    ignore_lint context hash s l d = Ok s1 ->
-    ignore_all context hash s1 hist = Ok s2 ->
-    is_ignored context hash s2 l' d' = Ok true.
-  Proof.
-    intros s l d l' d' w s1 hist s2 [K [S [M P]]] Ew Ew' E1 E2.
-    pose proof (context_of_tokens _ _ _ Ew) as Ec. pose proof (context_of_tokens _ _ _ Ew') as Ec'.
-    rewrite <- K, <- S, <- M, <- P in Ec'.
-    rewrite (is_ignored_spec context hash _ _ _ _ Ec'). f_equal. apply ig_mem_In.
-    apply (ignore_all_spec context hash _ _ _ E2). left.
-    rewrite (ignore_lint_spec context hash _ _ _ _ Ec) in E1. inversion E1. apply ig_insert_In. left. reflexivity.
-  Qed.
-End Stable.
-
-(* ------------------------------------------------------------------------------------------ *)
-(* the context, window by window                                                                *)
-(* ------------------------------------------------------------------------------------------ *)
-Lemma get_tokens_app ts a b : get_tokens ts (a ++ b) = get_tokens ts a ++ get_tokens ts b.
+(* exactly: the same message, kind, suggestions (and priority, which the property does not list but the
+   code hashes too) and the same flattened neighbourhood *)
+Lemma context_same_iff l d c l' d' c' :
+  context l d = Ok c -> context l' d' = Ok c' ->
+  (c = c' <-> same_report l l' /\ nb_tokens l d = nb_tokens l' d').
 Proof.
-  induction a as [|i r IH]; cbn [app get_tokens]; [reflexivity|].
-  destruct (nth_error ts i); rewrite IH; reflexivity.
+  intros E E'.
+  destruct (context_fields _ _ _ E) as [K [S [M [P T]]]].
+  destruct (context_fields _ _ _ E') as [K' [S' [M' [P' T']]]].
+  rewrite context_tokens_nb in T, T'. split.
+  - intros <-. unfold same_report. repeat split; congruence.
+  - intros [[Hk [Hs [Hm Hp]]] Ht]. destruct c, c'. cbn [c_kind c_sugg c_msg c_prio c_toks] in *.
+    rewrite T, T' in Ht. inversion Ht. congruence.
 Qed.
 
-Lemma map_res_app {A B} (f : A -> res B) a b :
-  map_res f (a ++ b) = (do x <- map_res f a; do y <- map_res f b; Ok (x ++ y)).
+(* what makes two contexts differ: each of the fields the property lists (and priority), and the
+   surrounding tokens *)
+Lemma context_differs l d c l' d' c' :
+  context l d = Ok c -> context l' d' = Ok c' ->
+  il_msg l <> il_msg l' \/ il_kind l <> il_kind l' \/ il_sugg l <> il_sugg l' \/ il_prio l <> il_prio l'
+  \/ nb_tokens l d <> nb_tokens l' d' ->
+  c <> c'.
 Proof.
-  induction a as [|h t IH]; cbn [app map_res bind].
-  - destruct (map_res f b); reflexivity.
-  - destruct (f h); cbn [bind]; [|reflexivity]. rewrite IH.
-    destruct (map_res f t); cbn [bind]; [|reflexivity]. destruct (map_res f b); reflexivity.
-Qed.
-
-Definition prequel_tokens (d : doc) (sp : span) : res (list ftok) :=
-  match prequel_window sp with Some v => window_tokens d v | None => Ok [] end.
-
-Lemma context_tokens_parts l d :
-  context_tokens l d =
-  (do a <- prequel_tokens d (il_span l);
-   do b <- window_tokens d (il_span l);
-   do c <- window_tokens d (sequel_window (il_span l));
-   Ok (a ++ b ++ c)).
-Proof.
-  unfold context_tokens, context_indices, prequel_tokens, window_tokens.
-  rewrite !get_tokens_app, !map_res_app.
-  destruct (prequel_window (il_span l)) as [v|]; cbn [get_tokens map_res bind];
-    repeat match goal with |- context [map_res ?f ?x] => destruct (map_res f x); cbn [bind] end; reflexivity.
-Qed.
-
-Lemma window_tokens_total d sp : doc_wf d -> exists w, window_tokens d sp = Ok w.
-Proof.
-  intros Hwf. unfold window_tokens. apply map_res_ok. intros t Ht. apply get_tokens_In in Ht.
-  unfold doc_wf in Hwf. rewrite Forall_forall in Hwf. rewrite (to_fat_wf _ _ (Hwf t Ht)). eauto.
-Qed.
-
-Lemma nb_parts_total l d : doc_wf d -> exists w, nb_parts l d = Ok w.
-Proof.
-  intros Hwf. unfold nb_parts.
-  destruct (window_tokens_total d (before_window (il_span l)) Hwf) as [b ->].
-  destruct (window_tokens_total d (il_span l) Hwf) as [p ->].
-  destruct (window_tokens_total d (after_window (il_span l)) Hwf) as [a ->]. cbn [bind]. eauto.
-Qed.
-
-Lemma context_fixed_total l d : doc_wf d -> exists c, context_fixed l d = Ok c.
-Proof.
-  intros Hwf. unfold context_fixed, nb_tokens. destruct (nb_parts_total l d Hwf) as [[[b p] a] ->].
-  cbn [bind]. eauto.
-Qed.
-
-Lemma context_fixed_fields l d c :
-  context_fixed l d = Ok c ->
-  c_kind c = il_kind l /\ c_sugg c = il_sugg l /\ c_msg c = il_msg l /\ c_prio c = il_prio l
-  /\ nb_tokens l d = Ok (c_toks c).
-Proof.
-  unfold context_fixed. destruct (nb_tokens l d) as [t|w]; cbn [bind]; [|discriminate].
-  intros E. inversion E. cbn. auto.
+  intros E E' H Eq. apply (context_same_iff _ _ _ _ _ _ E E') in Eq. destruct Eq as [[K [S [M P]]] T].
+  destruct H as [H|[H|[H|[H|H]]]]; apply H; congruence.
 Qed.
 
 (* ------------------------------------------------------------------------------------------ *)
 (* the property's premise, and the stability statement at full strength                          *)
 (* ------------------------------------------------------------------------------------------ *)
 (* "the flagged text and the tokens within two characters of it are untouched": the same report, and
-   the (position-free) tokens before / under / after the flagged text are the same three lists *)
+   the (position-free, dictionary-free) tokens before / under / after the flagged text are the same
+   three lists *)
 Definition untouched (l : ilint) (d : doc) (l' : ilint) (d' : doc) : Prop :=
   same_report l l' /\ exists w, nb_parts l d = Ok w /\ nb_parts l' d' = Ok w.
 
@@ -433,76 +424,72 @@ Proof.
   rewrite (ignore_lint_spec ctxf hash _ _ _ _ Ec) in E1. inversion E1. apply ig_insert_In. left. reflexivity.
 Qed.
 
-(* the repaired context (fixes/F12.diff + fixes/F13.diff): the statement holds at full strength *)
-Theorem stable_fixed : stays_ignored context_fixed.
+Lemma untouched_same_context l d l' d' : untouched l d l' d' -> context l d = context l' d'.
 Proof.
-  intros hash s l d l' d' s1 hist s2 Hd Hd' [[K [S [M P]]] [w [Ew Ew']]] E1 E2.
-  destruct (context_fixed_total l d Hd) as [c Ec].
-  apply (same_context_stays_ignored context_fixed hash s l d l' d' s1 hist s2 c Ec); [|exact E1|exact E2].
-  unfold context_fixed, nb_tokens in *. rewrite Ew in Ec. rewrite Ew'. rewrite <- K, <- S, <- M, <- P. exact Ec.
+  intros [[K [S [M P]]] [w [Ew Ew']]]. unfold context. rewrite !context_tokens_nb. unfold nb_tokens.
+  rewrite Ew, Ew', K, S, M, P. reflexivity.
 Qed.
 
-(* and distinct neighbourhoods give distinct contexts *)
-Lemma context_fixed_differs l d c l' d' c' :
-  context_fixed l d = Ok c -> context_fixed l' d' = Ok c' ->
-  il_msg l <> il_msg l' \/ il_kind l <> il_kind l' \/ il_sugg l <> il_sugg l' \/ il_prio l <> il_prio l'
-  \/ nb_tokens l d <> nb_tokens l' d' ->
-  c <> c'.
+(* the code as it is (after 8948350, 4550195, 483b7cf): the statement holds at full strength *)
+Theorem stable : stays_ignored context.
 Proof.
-  intros E E' H Eq. subst c'.
-  destruct (context_fixed_fields _ _ _ E) as [K [S [M [P T]]]].
-  destruct (context_fixed_fields _ _ _ E') as [K' [S' [M' [P' T']]]].
-  destruct H as [H|[H|[H|[H|H]]]]; apply H; congruence.
+  intros hash s l d l' d' s1 hist s2 Hd Hd' Hu E1 E2.
+  destruct (context_total l d Hd) as [c Ec].
+  apply (same_context_stays_ignored context hash s l d l' d' s1 hist s2 c Ec); [|exact E1|exact E2].
+  rewrite <- (untouched_same_context _ _ _ _ Hu). exact Ec.
 Qed.
 
 (* ------------------------------------------------------------------------------------------ *)
-(* the current code outside the two known classes                                               *)
+(* the context does not look at twin_loc / word metadata anywhere in the document               *)
 (* ------------------------------------------------------------------------------------------ *)
-Definition no_quote (fs : list ftok) : Prop := Forall (fun f => forall t, fst f <> KQuote t) fs.
+Lemma blank_kind_idem k : blank_kind (blank_kind k) = blank_kind k.
+Proof. destruct k; reflexivity. Qed.
 
-Lemma unblank fs w : map blank_ftok fs = w -> no_quote w -> fs = w.
+Lemma indices_from_blank ts sp : forall i, indices_from i (map blank_token ts) sp = indices_from i ts sp.
 Proof.
-  revert w. induction fs as [|[k c] r IH]; intros w E H; cbn [map] in E; subst w; [reflexivity|].
-  inversion H as [|x y Hx Hy]. subst. rewrite <- (IH _ eq_refl Hy). f_equal.
-  unfold blank_ftok in *. cbn [fst snd] in *. destruct k; cbn [blank_kind] in *; try reflexivity.
-  exfalso. apply (Hx None). reflexivity.
+  induction ts as [|t r IH]; intros i; cbn [map indices_from]; [reflexivity|].
+  cbn [blank_token tspan]. rewrite !IH. reflexivity.
 Qed.
 
-(* C14_stable_outside_known: for the code as it is, the stability statement holds for every lint
-   outside the two known classes — no quotation mark among the neighbouring tokens (F12) and a flagged
-   span of exactly two characters, for which [s+2,s+4) IS the two characters after the end (F13);
-   (and both lints, or neither, start at offset >= 2: below 2 the code drops the prequel window) *)
-Theorem stable_outside_known : forall l d l' d' b p a,
-  same_report l l' ->
-  nb_parts l d = Ok (b, p, a) -> nb_parts l' d' = Ok (b, p, a) ->
-  no_quote (b ++ p ++ a) ->
-  send (il_span l) = sstart (il_span l) + 2 -> send (il_span l') = sstart (il_span l') + 2 ->
-  (2 <= sstart (il_span l) <-> 2 <= sstart (il_span l')) ->
-  context l d = context l' d'.
+Lemma get_tokens_map (f : token -> token) ts idx : get_tokens (map f ts) idx = map f (get_tokens ts idx).
 Proof.
-  intros l d l' d' b p a [K [S [M P]]] E E' NQ L L' Hs.
-  unfold no_quote in NQ. rewrite !Forall_app in NQ. destruct NQ as [NQb [NQp NQa]].
-  unfold nb_parts in E, E'.
-  destruct (window_tokens d (before_window (il_span l))) as [b0|] eqn:Eb; cbn [bind] in E; [|discriminate].
-  destruct (window_tokens d (il_span l)) as [p0|] eqn:Ep; cbn [bind] in E; [|discriminate].
-  destruct (window_tokens d (after_window (il_span l))) as [a0|] eqn:Ea; cbn [bind] in E; [|discriminate].
-  destruct (window_tokens d' (before_window (il_span l'))) as [b1|] eqn:Eb'; cbn [bind] in E'; [|discriminate].
-  destruct (window_tokens d' (il_span l')) as [p1|] eqn:Ep'; cbn [bind] in E'; [|discriminate].
-  destruct (window_tokens d' (after_window (il_span l'))) as [a1|] eqn:Ea'; cbn [bind] in E'; [|discriminate].
-  inversion E as [[Hb Hp Ha]]. inversion E' as [[Hb' Hp' Ha']].
-  apply unblank in Hb, Hp, Ha, Hb', Hp', Ha'; try assumption. subst b0 p0 a0 b1 p1 a1.
-  unfold context. rewrite !context_tokens_parts, Ep, Ep'.
-  assert (sequel_window (il_span l) = after_window (il_span l)) as ->.
-  { unfold sequel_window, after_window, push_by, with_len. cbn [sstart send]. f_equal; lia. }
-  assert (sequel_window (il_span l') = after_window (il_span l')) as ->.
-  { unfold sequel_window, after_window, push_by, with_len. cbn [sstart send]. f_equal; lia. }
-  rewrite Ea, Ea'. unfold prequel_tokens, prequel_window, pulled_by, with_len. cbn [sstart send].
-  destruct (Nat.ltb_spec (sstart (il_span l)) 2) as [C|C];
-    destruct (Nat.ltb_spec (sstart (il_span l')) 2) as [C'|C']; try (exfalso; lia).
-  - cbn [bind]. rewrite K, S, M, P. reflexivity.
-  - replace (mkspan (sstart (il_span l) - 2) (sstart (il_span l) + 2 - 2)) with (before_window (il_span l))
-      by (unfold before_window; f_equal; lia).
-    replace (mkspan (sstart (il_span l') - 2) (sstart (il_span l') + 2 - 2)) with (before_window (il_span l'))
-      by (unfold before_window; f_equal; lia).
-    rewrite Eb, Eb'. cbn [bind]. rewrite K, S, M, P. reflexivity.
+  induction idx as [|i r IH]; cbn [get_tokens map]; [reflexivity|].
+  rewrite nth_error_map. destruct (nth_error ts i); cbn [option_map map]; rewrite IH; reflexivity.
+Qed.
+
+Lemma fat_blanked_blank src t : fat_blanked src (blank_token t) = fat_blanked src t.
+Proof.
+  unfold fat_blanked, to_fat, blank_token. cbn [tspan tkd].
+  destruct (get_content (tspan t) src); cbn [bind]; [|reflexivity].
+  unfold blank_ftok. cbn [fst snd]. rewrite blank_kind_idem. reflexivity.
+Qed.
+
+Lemma map_res_ext {A B} (f g : A -> res B) l : (forall x, f x = g x) -> map_res f l = map_res g l.
+Proof. intros H. induction l as [|x r IH]; cbn [map_res]; [reflexivity|]. rewrite H, IH. reflexivity. Qed.
+
+Lemma map_res_map {A B C} (f : B -> res C) (g : A -> B) l : map_res f (map g l) = map_res (fun x => f (g x)) l.
+Proof. induction l as [|x r IH]; cbn [map map_res]; [reflexivity|]. rewrite IH. reflexivity. Qed.
+
+Lemma context_blank_doc l d : context l (blank_doc d) = context l d.
+Proof.
+  unfold context, context_tokens, context_indices, token_indices_intersecting, blank_doc. cbn [dsrc dtoks].
+  rewrite !indices_from_blank. destruct (prequel_window (il_span l)) as [pw|w]; cbn [bind]; [|reflexivity].
+  rewrite !indices_from_blank, get_tokens_map, map_res_map.
+  rewrite (map_res_ext _ (fat_blanked (dsrc d)) _ (fat_blanked_blank (dsrc d))). reflexivity.
+Qed.
+
+(* two parses of the same text that differ only in word metadata (another dictionary) and in the
+   partner indices of quotation marks: every lint has the same context in both *)
+Lemma same_blank_doc_same_context l d d' : blank_doc d = blank_doc d' -> context l d = context l d'.
+Proof. intros E. rewrite <- (context_blank_doc l d), <- (context_blank_doc l d'), E. reflexivity. Qed.
+
+Theorem stable_dictionary : forall (hash : ctx -> N) s l d d' s1 hist s2,
+  blank_doc d = blank_doc d' ->
+  ignore_lint context hash s l d = Ok s1 -> ignore_all context hash s1 hist = Ok s2 ->
+  is_ignored context hash s2 l d' = Ok true.
+Proof.
+  intros hash s l d d' s1 hist s2 E E1 E2.
+  destruct (ignore_lint_inv context hash _ _ _ _ E1) as [c [Ec _]].
+  apply (same_context_stays_ignored context hash s l d l d' s1 hist s2 c Ec); [|exact E1|exact E2].
+  rewrite <- (same_blank_doc_same_context l d d' E). exact Ec.
 Qed.
